@@ -106,7 +106,7 @@ pub fn print_archive<R>(archive: &Archive<R>) {
                 .iter()
                 .map(|cdesc| u64::from(cdesc.source_size))
                 .sum::<u64>()
-                / archive.chunk_descriptors().len() as u64
+                / (archive.chunk_descriptors().len() as u64).max(1)
         )
     );
     info!(
